@@ -36,11 +36,12 @@ SQL_WITNESSES = [
     ("sqltype:rule:mul-one", "select s * 1 from t"),
     ("sqltype:rule:mul-zero", "select f * 0 from t"),
     ("sqltype:rule:sub-zero", "select s - 0 from t"),
+    ("sqltype:rule:add-same", "select m, ((case when b then s else s end) + (case when b then s else s end)) from t where (not b)"),
 ]
 
 
-def has_sub_cancel(q):
-    """True iff the query text contains a subexpression `(X - X)`."""
+def has_sub_cancel(q, op=" - "):
+    """True iff the query text contains a subexpression `(X - X)` (or `(X + X)` for op=" + ")."""
     stack = []
     for k, c in enumerate(q):
         if c == "(":
@@ -54,7 +55,7 @@ def has_sub_cancel(q):
                     depth += 1
                 elif ch == ")":
                     depth -= 1
-                elif depth == 0 and inner[j:j + 3] == " - ":
+                elif depth == 0 and inner[j:j + 3] == op:
                     if inner[:j].strip() == inner[j + 3:].strip():
                         return True
     return False
@@ -225,6 +226,8 @@ def run(ck):
                 sig = SQL_WITNESSES[k][0]
             elif norm(b) != norm(op) and len(b.split()) == len(op.split()) and has_sub_cancel(q):
                 sig = "sqltype:rule:sub-cancel"
+            elif norm(b) != norm(op) and len(b.split()) == len(op.split()) and has_sub_cancel(q, " + "):
+                sig = "sqltype:rule:add-same"
             elif norm(b) != norm(op):
                 sig = "sqltype:optimizer-retypes"
             else:
